@@ -363,7 +363,7 @@ func TestVerif_C28_Store(t *testing.T) {
 		ip   string
 		port int
 	}
-	for i := 0; i < verifh.Scale(250, 15000); i++ {
+	for i := 0; i < verifh.Scale(400, 15000); i++ {
 		size := []int{1, 2, 5, 10, 30}[r.Intn(5)]
 		mx := 1 + r.Intn(4)
 		t0 := c28Base + int64(r.Intn(100000))
@@ -381,6 +381,7 @@ func TestVerif_C28_Store(t *testing.T) {
 			pool = append(pool, peer{pool[0].pid, "::1", pool[0].port})
 		}
 		nops := 1 + r.Intn(25)
+		nann := 0
 		for j := 0; j < nops; j++ {
 			h := hashes[0]
 			if r.Chance(1, 5) {
@@ -391,6 +392,7 @@ func TestVerif_C28_Store(t *testing.T) {
 				p := pool[r.Intn(len(pool))]
 				c.Ops = append(c.Ops, append([]string{"op", "update", "h=" + h}, c28PeerToks(p.pid, p.ip, p.port, r.Chance(1, 3))...))
 				tr.Count("op_update", 1)
+				nann++
 			case k < 7:
 				d := r.Intn(size + 1)
 				if r.Chance(1, 6) {
@@ -400,8 +402,15 @@ func TestVerif_C28_Store(t *testing.T) {
 				tr.Count("op_tick", 1)
 			default:
 				n := 1000
-				if r.Chance(1, 5) {
+				switch k := r.Intn(10); {
+				case k < 2:
 					n = r.Intn(4)
+				case k < 6:
+					// around the number of peers announced so far: the sampling regime and its boundary
+					n = nann + r.Intn(3) - 1
+					if r.Chance(1, 3) {
+						n = 1 + r.Intn(nann+1)
+					}
 				}
 				c.Ops = append(c.Ops, []string{"op", "get", "h=" + h, "n=" + strconv.Itoa(n)})
 				tr.Count("op_get", 1)
